@@ -5,6 +5,7 @@ import (
 	"encoding/json"
 	"math/rand"
 	"strings"
+	"sync"
 
 	"polyverif/blake3ref"
 
@@ -176,6 +177,8 @@ func c04Record(tier string, seed int64, emit func(interface{}), prop string) {
 		return h
 	}
 	if prop == "C04" {
+		var prevA, prevT, prevH string
+		var prevDs bool
 		for i := 0; i < nMeta; i++ {
 			for _, rel := range []string{"rot", "rc", "rotrc", "case", "rna"} {
 				rna := rel == "rna" || rng.Intn(4) == 0
@@ -206,8 +209,30 @@ func c04Record(tier string, seed int64, emit func(interface{}), prop string) {
 					typb = "DNA"
 					b = strings.ReplaceAll(strings.ReplaceAll(a, "U", "T"), "u", "t")
 				}
+				var ha, hb string
+				if i%2 == 0 {
+					ha, hb = hash(a, typ, circ, ds), hash(b, typb, circ, ds)
+				} else {
+					// the two calls run at the same time, together with a repeat of an earlier call: the function is
+					// pure, so overlapping calls must not disturb one another (`poly hash a b c` hashes concurrently)
+					var again string
+					var wg sync.WaitGroup
+					wg.Add(3)
+					go func() { defer wg.Done(); ha = hash(a, typ, circ, ds) }()
+					go func() { defer wg.Done(); hb = hash(b, typb, circ, ds) }()
+					go func() { defer wg.Done(); again = hash(prevA, prevT, true, prevDs) }()
+					wg.Wait()
+					if prevA != "" {
+						emit(map[string]interface{}{"k": "meta", "rel": "case", "a": prevA, "b": prevA, "off": 0, "type": prevT, "typeb": prevT,
+							"circ": true, "ds": prevDs, "ha": prevH, "hb": again})
+					}
+				}
+				if len(a) > 0 {
+					prevA, prevT, prevDs = a, typ, ds
+					prevH = hash(a, typ, true, ds)
+				}
 				emit(map[string]interface{}{"k": "meta", "rel": rel, "a": a, "b": b, "off": off, "type": typ, "typeb": typb,
-					"circ": circ, "ds": ds, "ha": hash(a, typ, circ, ds), "hb": hash(b, typb, circ, ds)})
+					"circ": circ, "ds": ds, "ha": ha, "hb": hb})
 			}
 		}
 		return
